@@ -171,6 +171,40 @@ Definition rules_apply (r : rules) (e : expr) : expr :=
   | _ => filter (fun t => negb (term_forbidden r t)) e
   end.
 
+(* ---------- normal-ordered groups (occupied / virtual indices) ---------- *)
+(* wicks calls expr.doit(wicks=True): sympy replaces NO(...) by the product of
+   its operators, which NO.__new__ has already sorted (quasi-creators first)
+   with the sign of the permutation.  For occ/virt indices the class of an
+   operator is known from its space: Fd(virt), F(occ) are quasi-creators.
+   Groups containing general indices are not modelled (sympy splits them into
+   plain Dummy symbols and the library raises - see findings). *)
+Definition op_ov (a : op) : bool := negb (space_eqb (ispace (oidx a)) Gen).
+Definition op_qcre (a : op) : bool :=
+  if ocre a then is_v (ispace (oidx a)) else is_o (ispace (oidx a)).
+Fixpoint op_inv_parity (l : list op) : bool :=
+  match l with
+  | [] => false
+  | x :: r => xorb (op_inv_parity r)
+                   (if op_qcre x then false else Nat.odd (List.length (filter op_qcre r)))
+  end.
+Definition flatten_NO (l : list op) : bool * list op :=
+  (op_inv_parity l, filter op_qcre l ++ filter (fun o => negb (op_qcre o)) l).
+
+Definition ogroup := (bool * list op)%type.
+Fixpoint flatten_groups (gs : list ogroup) : bool * list op :=
+  match gs with
+  | [] => (false, [])
+  | (is_no, g) :: r =>
+      let (s, l) := flatten_groups r in
+      if is_no then let (t, g') := flatten_NO g in (xorb s t, g' ++ l)
+      else (s, g ++ l)
+  end.
+Definition groups_ok (gs : list ogroup) : bool :=
+  forallb (fun g : ogroup => negb (fst g) || forallb op_ov (snd g)) gs.
+(* operator part of wicks for a product with normal-ordered groups *)
+Definition wicks_groups (gs : list ogroup) : list wterm :=
+  let (s, l) := flatten_groups gs in map (fun t => (xorb s (fst t), snd t)) (wicks_ops l).
+
 (* ---------- support for the per-run ties (harness/props/c01.py) ---------- *)
 (* tie T: the table translated from the source of _contraction returns, per
    case, None (S.Zero) or the product of KroneckerDelta(x, y) with
@@ -234,3 +268,6 @@ Definition contraction_out (a b : op) := cres_code (contraction a b).
 (* which terms survive Rules.apply *)
 Definition rules_keep (r : rules) (e : expr) : list bool :=
   match r with [] => map (fun _ => true) e | _ => map (fun t => negb (term_forbidden r t)) e end.
+
+Definition op_code (a : op) : bool * N := (ocre a, iletter (oidx a)).
+Definition flatten_out (l : list op) := (fst (flatten_NO l), map op_code (snd (flatten_NO l))).
